@@ -80,12 +80,12 @@ func (g *jgen) plant(depth int) *JN {
 	}
 	if g.inBad == 0 {
 		switch {
-		case g.inEmbWs > 0:
-			g.in.PEw = append(g.in.PEw, u.S)
 		case u.Hard:
 			g.in.PH = append(g.in.PH, u.S)
 		case u.Class == clsHostOnly:
 			g.in.PHost = append(g.in.PHost, u.S)
+		case g.inEmbWs > 0:
+			g.in.PEw = append(g.in.PEw, u.S)
 		case u.Class == clsAsset:
 			g.in.PA = append(g.in.PA, u.S)
 		default:
